@@ -573,7 +573,7 @@ def check_C11(ctx):
         return
     cfg = "MC_Address_thorough.cfg" if ctx.thorough else "MC_Address.cfg"
     r = ctx.mc("MC_Address", cfg=cfg, workers=8)
-    p = ctx.write_scn(r.by("SCN"))
+    p = ctx.write_scn(r.by("SCN") + [{"bytes": a} for a in byron_recrc_addresses()])
     run = ctx.drive("address", scn=p, n=40000 if ctx.thorough else 4000)
 
     def corrupt(recs, rnd):
@@ -593,7 +593,7 @@ def check_C11(ctx):
                 crc_ok = list(zlib.crc32(bytes(e["pre"])).to_bytes(4, "big")) == e["crc"]
                 if e["accepted"] and not crc_ok:
                     ctx.verdict.add_fail("Strict/byron-accepted-with-wrong-checksum", e["sc"], {"addr": e["addr"]}, ctx._replay_of(e["sc"]))
-                if crc_ok and not e["accepted"]:
+                if crc_ok and e.get("known", True) and not e["accepted"]:
                     ctx.verdict.add_fail("Strict/byron-rejected-valid-address", e["sc"], {"addr": e["addr"]}, ctx._replay_of(e["sc"]))
         ctx.extra["byron_checksums_evaluated_with_zlib"] = n
 
@@ -704,6 +704,36 @@ def check_C04(ctx):
 
 
 # ------------------------------------------------------------------------------- C01 C02 C03 (wire format family)
+
+
+def _cbor_head(mt, n):
+    if n < 24:
+        return bytes([mt * 32 + n])
+    if n < 256:
+        return bytes([mt * 32 + 24, n])
+    if n < 65536:
+        return bytes([mt * 32 + 25]) + n.to_bytes(2, "big")
+    return bytes([mt * 32 + 26]) + n.to_bytes(4, "big")
+
+
+def byron_recrc_addresses():
+    """Byron addresses whose PAYLOAD is structurally off (root hash of another length, odd attribute maps, other types, other
+    arities) but whose CRC-32 is right - a plain mutation of a valid address never gets past the checksum. The checksum is
+    computed here (zlib) only to MAKE inputs; what the parsers must do with them is decided by the specification."""
+    import zlib
+    out = []
+    bstr = lambda b: _cbor_head(2, len(b)) + b
+    attrs = [b"\xa0", b"\xa1\x01" + bstr(bytes(range(28))), b"\xa1\x02" + bstr(b"\x1a\x41\x70\xcb\x17"),
+             b"\xa2\x01" + bstr(bytes(range(28))) + b"\x02" + bstr(b"\x1a\x41\x70\xcb\x17"), b"\xa1\x03\x00", b"\xa1\x01\x00", b"\x80", b"\xa1\x02" + bstr(b"\xff")]
+    for rl in (0, 1, 27, 28, 29, 32, 64):
+        for at in attrs:
+            for ty in (b"\x00", b"\x01", b"\x02", b"\x03", b"\x18\x18", b"\x20", b"\x40"):
+                for arity in (3, 2, 4):
+                    items = [bstr(bytes([7]) * rl), at, ty][:arity] + ([b"\x00"] if arity == 4 else [])
+                    payload = _cbor_head(4, arity) + b"".join(items)
+                    crc = zlib.crc32(payload) & 0xffffffff
+                    out.append(list(b"\x82\xd8\x18" + bstr(payload) + _cbor_head(0, crc)))
+    return out
 
 HANG_S = 25
 
@@ -847,7 +877,11 @@ def check_C02(ctx):
         return
     cfg = "MC_Mutate_thorough.cfg" if ctx.thorough else "MC_Mutate.cfg"
     r = ctx.mc("MC_Mutate", cfg=cfg, workers=8, timeout=1800)
-    p = ctx.write_scn(r.by("SCN"))
+    scn = r.by("SCN")
+    for a in byron_recrc_addresses():
+        scn.append({"kind": "raw", "type": "address", "bytes": a})
+        scn.append({"kind": "raw", "type": "output", "bytes": list(b"\x82" + _cbor_head(2, len(a)) + bytes(a) + b"\x01")})
+    p = ctx.write_scn(scn)
     run = _drive_parse(ctx, p, n_text=12 if ctx.thorough else 3, short=True)
 
     def corrupt(recs, rnd):
